@@ -130,12 +130,8 @@ Proof.
   rewrite obs_eqb_refl. simpl. apply IH.
 Qed.
 
-(* ---- ok on the model's own output: bounded sweep ----
-   The check accepts the model's own observations for EVERY history made of a
-   set-up prefix followed by at most 4 actions from a 13-letter alphabet
-   (2 nodes, 2-3 workloads, up to 4 watchers; 30941 histories per prefix).  This is
-   an exhaustive computation, not an induction: the general statement (all
-   histories) is not proved. *)
+(* ---- ok on the model's own output: a small exhaustive sweep kept as a sanity
+   example (the statement for ALL histories is GenProofs.ok_gen) ---- *)
 Definition alphabet : list action :=
   [AHeartbeat 0; ALapse 0; ALapse 1; ALapseFail 0; ACreate 0; AReport 0 true true;
    AStart; AStartHeld; ARelease 0; ARelease 1; AStop 0; AStop 1; AExpire 0].
@@ -146,6 +142,5 @@ Fixpoint words (n : nat) : list (list action) :=
 Definition all_ok (pre : list action) (n : nat) : bool :=
   forallb (fun w => ok (gen_case (pre ++ w))) (words n).
 
-Theorem ok_gen_bounded :
-  all_ok setup 4 = true /\ all_ok (setup ++ [AStart]) 4 = true /\ all_ok (setup ++ [AStartHeld; AStart]) 4 = true.
+Example ok_gen_sweep : all_ok setup 2 = true /\ all_ok (setup ++ [AStartHeld; AStart]) 2 = true.
 Proof. vm_compute. auto. Qed.
